@@ -150,3 +150,120 @@ Proof.
     apply andb_true_intro; split; apply Z.leb_le; lia.
 Qed.
 Lemma of_bool_range b : in_int (of_bool b) = true. Proof. destruct b; reflexivity. Qed.
+
+(* ---------------------------------------------------------------- statements *)
+Lemma tick_ret {B} s (k : state -> res B) r : tick s k = r -> r <> Fail FuelExhausted ->
+  k (set_budget s (budget s - 1)) = r.
+Proof. unfold tick. destruct (budget s <=? 0); [intros <- H; exfalso; apply H; reflexivity | trivial]. Qed.
+
+Definition ticked (s : state) : state := set_budget s (budget s - 1).
+Lemma same_store_ticked s : same_store s (ticked s). Proof. repeat split. Qed.
+
+Lemma exec_unfold f ge st s r : exec (S f) ge st s = r -> r <> Fail FuelExhausted ->
+  exec_body (eval f ge) (evals f ge) (exec f ge) (execs f ge) ge st s = r.
+Proof. trivial. Qed.
+
+(* one-element operand lists *)
+Lemma evals_one f ge e st L s :
+  evals f ge [e] st = Ret L s ->
+  exists f1 v st1 s1, same_store st st1 /\ eval f1 ge e st1 = Ret v s1 /\ map fst L = [v] /\ same_store s1 s.
+Proof.
+  destruct f as [|f1]; [discriminate|]. cbn [evals]. unfold evals_body at 1. intros H.
+  apply rcase_ret in H. destruct H as [([v el] & s1 & H1 & H)|(c & s0 & _ & H)].
+  2:{ cbn [forallb] in H. discriminate. }
+  apply with_eff_ret in H1. destruct H1 as (sl & Hl & -> & ->).
+  apply rcase_ret in H. destruct H as [(L1 & s2 & H2 & H)|(c & s0 & _ & H)].
+  2:{ cbn [snd] in H. destruct (e_io (cur sl)); discriminate. }
+  inversion H; subst L s; clear H.
+  destruct f1 as [|f2]; [discriminate|]. cbn [evals evals_body] in H2. inversion H2; subst L1 s2.
+  exists (S f2), v, (set_cur st eff0), sl. repeat split. exact Hl.
+Qed.
+
+(* a halting evaluation of a one-element operand list comes from the operand itself *)
+Lemma operands_ret evs es s vs s1 : operands evs es s = Ret vs s1 ->
+  exists L, evs es s = Ret L s1 /\ vs = map fst L.
+Proof.
+  unfold operands. intros H. apply bind_ret in H. destruct H as (L & s2 & H1 & H2).
+  destruct (conflicts (map snd L)); [discriminate|]. inversion H2; subst. exists L. split; [exact H1 | reflexivity].
+Qed.
+
+(* ---------------------------------------------------------------- expressions without calls never halt the program *)
+Lemma rcase_halt {A B} (r : res A) kr kh c (s : state) :
+  @rcase A B r kr kh = Halt c s ->
+  (exists a s0, r = Ret a s0 /\ kr a s0 = Halt c s) \/ (exists c0 s0, r = Halt c0 s0 /\ kh c0 s0 = Halt c s).
+Proof. destruct r as [a s0|c0 s0|u]; cbn [rcase]; intros H; [left|right|discriminate]; eauto. Qed.
+
+Lemma bind_halt {A B} (r : res A) k c (s : state) :
+  @bind A B r k = Halt c s -> r = Halt c s \/ (exists a s0, r = Ret a s0 /\ k a s0 = Halt c s).
+Proof.
+  unfold bind. intros H. apply rcase_halt in H. destruct H as [H|(c0 & s0 & H1 & H2)]; [right; exact H|].
+  left. rewrite H1. inversion H2. reflexivity.
+Qed.
+
+Lemma int_of_halt {B} v (k : Z -> res B) c s : int_of v k = Halt c s -> exists n, k n = Halt c s.
+Proof. destruct v; cbn [int_of]; try discriminate. eauto. Qed.
+Lemma bool_of_halt {B} v (k : bool -> res B) c s : bool_of v k = Halt c s -> exists t, k t = Halt c s.
+Proof.
+  unfold bool_of. intros H. apply int_of_halt in H. destruct H as (n & H).
+  destruct (n =? 0); [eauto|]. destruct (n =? 1); [eauto | discriminate].
+Qed.
+
+Fixpoint pure (e : expr) : bool :=
+  match e with
+  | ENum _ => true | EBool _ => true | EVar _ => true
+  | EUn _ a => pure a
+  | EBin _ l r => pure l && pure r
+  | _ => false
+  end.
+
+Lemma evals_no_halt ge : forall es,
+  (forall e, In e es -> forall f st c s, eval f ge e st <> Halt c s) ->
+  forall f st c s, evals f ge es st <> Halt c s.
+Proof.
+  induction es as [|e r IH]; intros Hes f st c s H; destruct f as [|f0]; try discriminate; cbn [evals evals_body] in H; try discriminate.
+  apply rcase_halt in H. destruct H as [([v ef] & s1 & H1 & H)|(c0 & s0 & H1 & H)].
+  - apply rcase_halt in H. destruct H as [(L & s2 & _ & H)|(c1 & s2 & H2 & _)]; [discriminate|].
+    exact (IH (fun e0 Hin => Hes e0 (or_intror Hin)) f0 s1 c1 s2 H2).
+  - unfold with_eff in H1. apply rcase_halt in H1. destruct H1 as [(a0 & s2 & _ & H1)|(c1 & s2 & H1 & _)]; [discriminate|].
+    exact (Hes e (or_introl eq_refl) f0 _ c1 s2 H1).
+Qed.
+
+Lemma pure_no_halt ge : forall e, pure e = true -> forall f st c s, eval f ge e st <> Halt c s.
+Proof.
+  induction e as [n0|b0|bs|x|a i|g args|n0 args|u e IHe|o l IHl rr IHr]; intros Hp f st c s H; cbn [pure] in Hp; try discriminate;
+    destruct f as [|f0]; try discriminate; cbn [eval eval_body] in H; try discriminate.
+  - unfold read_var in H.
+    destruct (assoc x (f_vars (top st))) as [[| | |]|]; try discriminate.
+    destruct (assoc x (f_vals (top st))); [discriminate|]. destruct (assoc x (g_vals ge)); [discriminate|].
+    destruct (assoc x (gvars st)) as [[| | |]|]; try discriminate. destruct (assoc x (garrs st)); discriminate.
+  - destruct u.
+    + apply bind_halt in H. destruct H as [H|(v & s1 & _ & H)]; [exact (IHe Hp _ _ _ _ H)|].
+      apply int_of_halt in H. destruct H as (n & H). destruct (in_int (0 - n)); discriminate.
+    + apply bind_halt in H. destruct H as [H|(v & s1 & _ & H)]; [exact (IHe Hp _ _ _ _ H)|].
+      apply bool_of_halt in H. destruct H as (t & H). discriminate.
+  - apply andb_prop in Hp. destruct Hp as [Hpl Hpr].
+    assert (Hgen : forall K : list value -> state -> res value, bind (operands (evals f0 ge) [l; rr] st) K = Halt c s ->
+                    (forall vs s1, K vs s1 <> Halt c s) -> False).
+    { intros K HK HKn. apply bind_halt in HK. destruct HK as [HK|(vs & s1 & _ & HK)]; [|exact (HKn vs s1 HK)].
+      unfold operands in HK. apply bind_halt in HK. destruct HK as [HK|(L & s1 & _ & HK)].
+      - refine (evals_no_halt ge [l; rr] _ f0 st c s HK). intros e0 [<-|[<-|[]]]; [exact (IHl Hpl) | exact (IHr Hpr)].
+      - destruct (conflicts (map snd L)); discriminate. }
+    assert (Hk : forall o' vs s1, match vs with
+                   | [a; b] => int_of a (fun x => int_of b (fun y => match binop_ans o' x y with inr z => Ret (Vint z) s1 | inl u => Fail u end))
+                   | _ => Fail (Unsupported "internal: operands") end <> Halt c s).
+    { intros o' vs s1 Hh. destruct vs as [|a [|b [|? ?]]]; try discriminate.
+      apply int_of_halt in Hh. destruct Hh as (x & Hh). apply int_of_halt in Hh. destruct Hh as (y & Hh).
+      destruct (binop_ans o' x y); discriminate. }
+    destruct o; [exact (Hgen _ H (Hk Plus)) | exact (Hgen _ H (Hk Minus)) | | | exact (Hgen _ H (Hk Eq)) | exact (Hgen _ H (Hk Ne))
+                | exact (Hgen _ H (Hk Ls)) | exact (Hgen _ H (Hk Le)) | exact (Hgen _ H (Hk Gr)) | exact (Hgen _ H (Hk Ge))].
+    + (* or *)
+      apply bind_halt in H. destruct H as [H|(v & s1 & _ & H)]; [exact (IHl Hpl _ _ _ _ H)|].
+      apply bool_of_halt in H. destruct H as (t & H). destruct t; [discriminate|].
+      apply bind_halt in H. destruct H as [H|(w & s2 & _ & H)]; [exact (IHr Hpr _ _ _ _ H)|].
+      apply bool_of_halt in H. destruct H as (t2 & H). discriminate.
+    + (* and *)
+      apply bind_halt in H. destruct H as [H|(v & s1 & _ & H)]; [exact (IHl Hpl _ _ _ _ H)|].
+      apply bool_of_halt in H. destruct H as (t & H). destruct t; [|discriminate].
+      apply bind_halt in H. destruct H as [H|(w & s2 & _ & H)]; [exact (IHr Hpr _ _ _ _ H)|].
+      apply bool_of_halt in H. destruct H as (t2 & H). discriminate.
+Qed.
